@@ -193,6 +193,7 @@ Inductive op :=
 | OMsg (signer : string) (m : msg) (tape : list bool)
 | ODeposit (to denom : string) (amt : Z)
 | OSend (from to denom : string) (amt : Z)     (* a user's bank MsgSend *)
+| OMove (m : move)                              (* a movement of funds by another module (never the orbiter's own doing) *)
 | OQuery (q : query)
 | OBlockedOutside       (* a packet the middleware in front of the orbiter (blockibc) refused itself *)
 | OCallback             (* another IBC callback (acknowledgement, timeout): the embedded module's, differential only *)
@@ -230,6 +231,7 @@ Definition step (cfg : config) (e : env) (w : world) (o : op) : world * out :=
       if existsb (String.eqb to) blocked_addresses || negb (0 <? a) || (bal (w_l w) from d <? a)
       then (w, OutSend false)
       else ({| w_o := w_o w; w_l := apply_move (w_l w) (MSend from to d a) |}, OutSend true)
+  | OMove m => ({| w_o := w_o w; w_l := apply_move (w_l w) m |}, OutDeposit)
   | OQuery q => (w, OutQuery (run_query (w_o w) q))
   | OBlockedOutside => (w, OutBlocked)
   | OAppPanics => (w, OutAppPanic)
